@@ -129,6 +129,50 @@ CHECKS["C03"] = dict(
          "decided: row alignment of batches across columns, lifetime of zero-copy data.",
     ref="DESIGN.md §3 C03")
 
+CHECKS["C01"] = dict(
+    technique="static analysis: codec-table agreement, CFG must-pass/ordering, status liveness, encoder typestate, cursor-skeleton abstract execution with abstract length fields",
+    text="Necessary structural clauses: writer encoder table and reader decoder table name the same PLAIN codec per "
+         "type; finalize paths flush/append/reset in order and cover every column; every status on the write path is "
+         "consumed; the level encoder never pads mid-stream; PLAIN encoders append exactly what decoders consume "
+         "(counts 0..40); PLAIN BYTE_ARRAY accepts every exactly fitting page of 0..3 values with lengths in "
+         "{0,1,5} (trailing empty strings included), rejects short pages, stays inside the page. Not decided: value "
+         "and null-position equality, row-group partition, multi-batch-per-page level layout (known value-level "
+         "limitation, DESIGN.md).",
+    ref="DESIGN.md §3 C01")
+CHECKS["C05"] = dict(
+    technique="static analysis: Thrift grammar extraction vs frozen parquet.thrift, enum tables, reaching-definition rules on page header sizes/CRC, who-may-write on offsets, cross-unit declaration agreement",
+    text="Structural clauses: every (struct, id, wire type) written by the metadata writers and the hand-rolled page "
+         "header equals parquet.thrift with required fields unconditional; raw enum tags equal the specification; "
+         "page header sizes are the sizes of compress_data's input/output, CRC and counts come from the stored "
+         "bytes/state, page layout rep|def|values; emitted LZ offsets fit 16 bits; file_offset changes only by "
+         "written sizes; chunk offsets from a running offset; duplicated struct definitions and extern prototypes "
+         "agree across units. Not decided: acceptance by an independent reader, byte-determinism, payload validity.",
+    ref="DESIGN.md §3 C05")
+CHECKS["C06"] = dict(
+    technique="static analysis: switch exhaustiveness/defaults, page-type admission vs header-member use, exhaustive abstract evaluation of the level-width functions over 0..32767, provenance of widths",
+    text="Structural clauses: unknown codecs/encodings/types are rejected by error defaults; each loader admits exactly "
+         "the page type whose header member it consumes (DATA_PAGE_V2 refused); reader's and writer's "
+         "bit_width_for_max equal the bit length for every level 0..32767; level widths derive from the column's max "
+         "level, index width from the page byte; enum tags equal parquet.thrift. Not decided: decoded values/levels "
+         "equal the stored ones; nested reconstruction.",
+    ref="DESIGN.md §3 C06")
+CHECKS["C09"] = dict(
+    technique="static analysis: dominance of capacity guards over stores, codec-pair table agreement, constant range of emitted offsets",
+    text="Capacity clauses: in the built-in compressors the dst_capacity < compress_bound(src_size) refusal dominates "
+         "every store through dst; zlib/zstd wrappers pass dst/dst_capacity unchanged; compress_data pairs each "
+         "codec's bound with its compressor, allocates `bound` and passes it as capacity; match distances admitted by "
+         "the compressors fit the two offset bytes emitted; decompressors report op - dst under capacity checks. Not "
+         "decided: round trip; sufficiency of the bound formulas.",
+    ref="DESIGN.md §3 C09")
+CHECKS["C11"] = dict(
+    technique="static analysis: encoder typestate on the pad store; cursor-skeleton abstract execution of count-driven codecs; implicit-narrowing rule on the typed AST",
+    text="Structural clauses: the hybrid encoder's pad store runs only with a full/empty group or as the last emission "
+         "of flush; PLAIN (all fixed-width types, BOOLEAN, FIXED_LEN) and BYTE_STREAM_SPLIT encoders/decoders "
+         "produce/consume exactly count*width bytes with exact extents for counts 0..40 and refuse short inputs; no "
+         "implicit 64->32-bit narrowing of a non-constant exists in the codec and file layers. Not decided: "
+         "decode(encode(v)) = v for DELTA_*, dictionary, RLE; streaming/one-shot agreement.",
+    ref="DESIGN.md §3 C11")
+
 NOT_APPLICABLE = {
     "C10": "conformance of Snappy/LZ4 streams to the external grammars is a statement about emitted/accepted byte values; no structural clause beyond the decoder bounds already decided under C08 (DESIGN.md §6)",
     "C12": "conformance of encoder output to the Parquet encoding specification needs an independent codec as value oracle; no sound structural clause (DESIGN.md §6)",
